@@ -5,6 +5,11 @@
 EXTENDS GramUnify
 \* an unused definition around the program
 AddUnused(t) == LetT(<<[n |-> "?", ann |-> TInt, def |-> Lit(OfSmall(0))]>>, Up(t, 0, 1))
+\* an unused definition added in front of an existing group g (t is a let): the members keep their indices, every
+\* reference to the outside moves up by one
+AddUnusedIn(g) == LET n == Len(g.defs) IN
+   LetT(<<[n |-> "?", ann |-> TInt, def |-> Lit(OfSmall(0))]>> \o Mat([j \in 1..n |-> [g.defs[j] EXCEPT !.ann = Up(g.defs[j].ann, n, 1), !.def = Up(g.defs[j].def, n, 1)]], n),
+        Up(g.b, n, 1))
 \* if true then e else e
 IfTrueAt(t, s) == Replace(t, s.pos, IfT(TTrue, s.sub, s.sub))
 \* positions whose type is known from the parent alone
@@ -58,6 +63,7 @@ IsDefPos(pos) == Len(pos) >= 2 /\ pos[Len(pos) - 1] = "def"
 \* all single rewrites of t: set of [rule, t]
 Rewrites(t) ==
   {[rule |-> "add-unused-definition", t |-> AddUnused(t)]}
+  \cup { [rule |-> "add-unused-definition-in-group", t |-> Replace(t, s.pos, AddUnusedIn(s.sub))] : s \in { x \in Subterms(t, <<>>, 0) : x.sub.k = "let" } }
   \* not at a definition of a group: there it matters whether the definition is a syntactic value (a recursive function
   \* wrapped in a conditional is no longer available to its own body in time)
   \cup { [rule |-> "if-true", t |-> IfTrueAt(t, s)] : s \in { x \in Subterms(t, <<>>, 0) : ~IsDefPos(x.pos) } }
